@@ -88,6 +88,12 @@ void harness(void)
 	size_t n;
 
 	ASSUME(pos0 < RING && probe < RING && code < NUM_CODES && sym <= MAXSYM && rem >= 1);
+#ifdef FIXCODE
+	code = FIXCODE;                      /* one concrete command code (grid point) */
+#endif
+#ifdef FIXPOS
+	pos0 = FIXPOS;                        /* one concrete write position (grid point) */
+#endif
 	for (i = 0; i < BS_N; ++i) bs_data[i] = stream[i];
 	bs_bits = 8 * BS_N; bs_pos = 0;
 #if RING_BUFFER_SIZE <= 64
@@ -116,7 +122,19 @@ void harness(void)
 	dec.block_remaining = rem;
 	g_code = (int) code; g_sym = (int) sym;
 
+#ifdef SPLITPOS
+	/* same call, written as a case split over the write position so that symbolic execution sees a constant
+	 * position on each path (no restriction: the cases cover every pos0 < RING) */
+	n = 0;
+	for (i = 0; i < RING; ++i) {
+		if (pos0 == i) {
+			dec.ringbuf_pos = i;
+			n = lha_lh_new_read(&dec, out);
+		}
+	}
+#else
 	n = lha_lh_new_read(&dec, out);
+#endif
 
 	CHECK(code_walks == 1, "C01 H01.cmd: exactly one code-tree symbol per command");
 	CHECK(dec.block_remaining == rem - 1, "C01 H01.cmd: one command consumed from the block");
@@ -129,17 +147,11 @@ void harness(void)
 		CHECK(n == len, "C01 H01.cmd: copy yields exactly its length");
 		CHECK(off_walks == 1 && bs_pos == p, "C01 H01.cmd: copy reads one offset symbol and exactly its extra bits");
 		CHECK(d < RING, "harness: distance inside the window");
-#ifdef ALLIDX
-		for (idx = 0; idx < LENMAX; ++idx)    /* every output index, one assertion instance each */
-#endif
 		if (idx < len) {
 			u8 expect = idx <= d ? d0.ringbuf[(pos0 + RING - 1 - d + idx) % RING] : out[idx - d - 1];
 			CHECK(out[idx] == expect, "C01 H01.cmd: copy byte i is the window byte at distance d, or output byte i-d-1 (overlap)");
 		}
 		CHECK(dec.ringbuf_pos == (pos0 + len) % RING, "C01 H01.cmd: write position advances by the copy length (mod RING)");
-#ifdef ALLIDX
-		for (probe = 0; probe < RING; ++probe)    /* every ring cell */
-#endif
 		{
 			/* last output byte written to ring cell 'probe', if any */
 			unsigned e = (probe + RING - pos0) % RING;
